@@ -1,14 +1,467 @@
 package main
 
+import (
+	"fmt"
+	"go/types"
+	"strings"
+
+	"golang.org/x/tools/go/ssa"
+)
+
 func init() { register("C02", "other", runC02) }
+
+const parserGenPkg = "internal/parser/gen/golang"
+
+// ---- R02.1: the LR(1) action of one item on one symbol -----------------------------
+
+func checkItemAction(c *Ctx, p *Prog, rule string) {
+	fn := p.Func(lr1ItemsPkg, "*Item.action")
+	if fn == nil {
+		c.Undecided(rule, "lr1 Item.action", "function not found")
+		return
+	}
+	inl := map[string]bool{}
+	for _, n := range []string{"*Item.accept", "*Item.reduce"} {
+		if f := p.Func(lr1ItemsPkg, n); f != nil {
+			inl[f.String()] = true
+		}
+	}
+	n, bad := 0, 0
+	first := ""
+	for _, sym := range []string{"INVALID", "␚", "a", "b"} {
+		for _, fol := range []string{"␚", "a", "b"} {
+			for _, prodIdx := range []int64{0, 3} {
+				for _, shape := range []string{"incomplete", "complete", "empty"} {
+					exps := []string{""}
+					pos, ln := int64(2), int64(2)
+					switch shape {
+					case "incomplete":
+						pos, ln = 1, 3
+						exps = []string{"a", "b", "␚"}
+					case "empty":
+						pos, ln = 0, 0
+					}
+					for _, exp := range exps {
+						reg := &Region{Fn: fn, Inline: inl, Params: map[string]Val{"sym": VOpq{"sym"}, "nextState": VSym{Name: "nextState"}}}
+						w := &MapWorld{
+							Ints: map[string]int64{"this.ProdIdx": prodIdx, "this.Pos": pos, "this.Len": ln},
+							Strs: map[string]string{"sym": sym, "this.FollowingSymbol": fol, "this.ExpectedSymbol": exp},
+						}
+						out := InterpretSafe(reg, w)
+						n++
+						complete := pos >= ln
+						want := "action.Error(true)"
+						switch {
+						case sym == "INVALID":
+						case complete && prodIdx == 0 && fol == "␚" && sym == "␚":
+							want = "action.Accept(true)"
+						case complete && sym == fol:
+							want = "action.Reduce(this.ProdIdx)"
+						case !complete && sym == exp:
+							want = "action.Shift(nextState)"
+						}
+						got := out.Term
+						if out.Term == "return" && len(out.Results) == 1 {
+							got = out.Results[0]
+						}
+						if out.Term == "undecided" {
+							got = "UNDECIDED: " + out.Undecided
+						}
+						if got != want || len(out.Events) != 0 {
+							bad++
+							if first == "" {
+								first = fmt.Sprintf("item(prod %d, %s, following %q, expected %q) on %q: code gives %s, canonical LR(1) requires %s", prodIdx, shape, fol, exp, sym, got, want)
+							}
+						}
+					}
+				}
+			}
+		}
+	}
+	c.Ob(rule, "lr1 Item.action", bad == 0, fmt.Sprintf("%d worlds (symbol x follow x production 0/other x dot position x expected symbol); %d disagree with: INVALID -> error; [S'->S., $] on $ -> accept; complete item on exactly its follow symbol -> reduce by its production; incomplete item on its expected symbol -> shift; otherwise error. %s", n, bad, first), p.FnPos(fn))
+	if n < 100 {
+		c.Undecided(rule, "vacuity", "too few worlds")
+	}
+	c.Sample(map[string]any{"rule": rule, "worlds": n})
+}
+
+// ---- R02.2: the body length the automaton assumes is the one the parser pops ----------
+
+func normProd(s string, names ...string) string {
+	for _, n := range names {
+		s = strings.ReplaceAll(s, n, "PROD")
+	}
+	return s
+}
+
+func symbolStringSummary(r *Run, cc *ssa.CallCommon, args []Val) (Val, error) {
+	return VOpq{"SYM0"}, nil
+}
+
+func checkBodyLength(c *Ctx, p *Prog, rule string) (prodsTabStores map[string]map[string]string) {
+	prodsTabStores = map[string]map[string]string{}
+	ni := p.Func(lr1ItemsPkg, "NewItem")
+	gp := p.Func(parserGenPkg, "getProdsTab")
+	if ni == nil || gp == nil {
+		c.Undecided(rule, "NewItem / getProdsTab", "function not found")
+		return
+	}
+	gph := loopHeaders(gp)
+	if len(gph) != 1 {
+		c.Undecided(rule, "getProdsTab", "expected one loop")
+		return
+	}
+	for _, empty := range []bool{true, false} {
+		s0 := "x"
+		if empty {
+			s0 = "empty"
+		}
+		// NewItem: entry to the first loop or return
+		reg := &Region{Fn: ni, Cuts: cutSet(loopHeaders(ni)...), Summaries: map[string]Summary{
+			"invoke:SymbolString": symbolStringSummary,
+			"*.getString":         pureSummary("getString"),
+			"fmt.Sprintf":         SprintfSummary,
+		}}
+		w := &MapWorld{Strs: map[string]string{"SYM0": s0}, Ints: map[string]int64{"pos": 0, "len(*prod.Body.Symbols)": 3}}
+		out := InterpretSafe(reg, w)
+		lenItem := normProd(out.Stores["new:complit.Len"], "*prod.Body", "prod.Body")
+		// getProdsTab loop body
+		for _, sdt := range []bool{true, false} {
+			reg2 := &Region{Fn: gp, Start: gph[0], Cuts: cutSet(gph[0]), PhiInputs: map[string]Val{"rangeindex": VSym{Name: "i"}},
+				Summaries: map[string]Summary{
+					"invoke:SymbolString": symbolStringSummary,
+					"fmt.Sprintf":         SprintfSummary,
+					"*.String":            pureSummary("String"),
+					"*.NTType":            pureSummary("NTType"),
+				},
+				PreWorld: &MapWorld{Ints: map[string]int64{"len(prods)": 5}},
+			}
+			sl := int64(0)
+			if sdt {
+				sl = 7
+			}
+			w2 := &MapWorld{Strs: map[string]string{"SYM0": s0}, Ints: map[string]int64{"i": 1, "len(prods)": 5, "len(**prods[i+1].Body.SDT)": sl}}
+			out2 := InterpretSafe(reg2, w2)
+			name := fmt.Sprintf("getProdsTab loop body: first symbol %q, action given=%v", s0, sdt)
+			if out2.Term == "undecided" {
+				c.Undecided(rule, name, out2.Undecided, p.FnPos(gp))
+				continue
+			}
+			st := map[string]string{}
+			for k, v := range out2.Stores {
+				if i := strings.LastIndex(k, "]."); i >= 0 {
+					st[k[i+2:]] = normProd(v, "**prods[i+1].Body", "*prods[i+1]")
+				}
+			}
+			prodsTabStores[fmt.Sprintf("%v/%v", empty, sdt)] = st
+			wantLen := "len(PROD.Symbols)"
+			if empty {
+				wantLen = "0"
+			}
+			ok := out.Term != "undecided" && lenItem == wantLen && st["NumSymbols"] == wantLen
+			c.Ob(rule, name, ok, fmt.Sprintf("lr1 NewItem sets Len=%s (%s %s); getProdsTab sets NumSymbols=%s; both must be %s (0 for an alternative whose first symbol is 'empty', else the number of body symbols) — what the automaton assumes is what the parser pops", lenItem, out.Term, out.Undecided, st["NumSymbols"], wantLen), p.FnPos(gp))
+		}
+	}
+	return
+}
+
+// ---- R03.1: default actions ---------------------------------------------------------
+
+func checkDefaultActions(c *Ctx, p *Prog, rule string, stores map[string]map[string]string) {
+	for _, empty := range []bool{true, false} {
+		for _, sdt := range []bool{true, false} {
+			st, ok := stores[fmt.Sprintf("%v/%v", empty, sdt)]
+			name := fmt.Sprintf("getProdsTab ReduceFunc: empty alternative=%v, action given=%v", empty, sdt)
+			if !ok {
+				c.Undecided(rule, name, "loop body not interpreted")
+				continue
+			}
+			want := `"return X[0], nil"`
+			switch {
+			case sdt:
+				want = `Sprintf("return %s"|string(PROD.SDT))`
+			case empty:
+				want = `"return nil, nil"`
+			}
+			c.Ob(rule, name, st["ReduceFunc"] == want, fmt.Sprintf("code emits %s, required %s (the user's action text if given; else nil for an empty alternative; else the first symbol's attribute)", st["ReduceFunc"], want))
+		}
+	}
+}
+
+// ---- R02.3: cell writers -------------------------------------------------------------
+
+type cellWorld struct {
+	kind      string
+	conflicts bool
+}
+
+func checkCellWriters(c *Ctx, p *Prog, rule, ruleConf string) {
+	fn := p.Func(parserGenPkg, "getActionRowData")
+	if fn == nil {
+		c.Undecided(rule, "getActionRowData", "function not found")
+		return
+	}
+	hs := loopHeaders(fn)
+	if len(hs) != 2 {
+		c.Undecided(rule, "getActionRowData", fmt.Sprintf("expected two loops (padding, cells), found %d", len(hs)))
+		return
+	}
+	head := hs[1]
+	for _, kind := range actionKinds {
+		for _, conf := range []bool{false, true} {
+			var act Val
+			T := actionType(p, kind)
+			if kind == "Shift" || kind == "Reduce" {
+				act = VIface{Dyn: T, V: VSym{Name: "a"}}
+			} else {
+				act = VIface{Dyn: T, V: VOpq{"true"}}
+			}
+			reg := &Region{Fn: fn, Start: head, Cuts: cutSet(hs...),
+				PhiInputs: map[string]Val{"rangeindex": VSym{Name: "i"}},
+				Summaries: map[string]Summary{
+					"*.Action": func(r *Run, cc *ssa.CallCommon, args []Val) (Val, error) {
+						r.Event("set.Action(%s)", render(args[1]))
+						return VTuple{act, VOpq{"symConflicts"}}, nil
+					},
+					"*.CanRecover": pureSummary("CanRecover"),
+					"*.nbytes":     func(r *Run, cc *ssa.CallCommon, args []Val) (Val, error) { return VSym{Name: "nbytes"}, nil },
+					"fmt.Sprintf":  SprintfSummary,
+				},
+				PreWorld: &MapWorld{Ints: map[string]int64{"len(tokMap.TypeMap)": 0}},
+			}
+			nc := int64(0)
+			if conf {
+				nc = 2
+			}
+			w := &MapWorld{Ints: map[string]int64{"i": 1, "len(tokMap.TypeMap)": 9, "len(symConflicts)": nc, "max": 20, "nbytes": 1}}
+			out := InterpretSafe(reg, w)
+			name := fmt.Sprintf("getActionRowData cell: action %s, conflicts=%v", kind, conf)
+			if out.Term == "undecided" {
+				c.Undecided(rule, name, out.Undecided, p.FnPos(fn))
+				continue
+			}
+			cell, cellKey := "", ""
+			var maps []string
+			asked := ""
+			for _, e := range out.Events {
+				switch {
+				case strings.HasPrefix(e, "store ") && strings.Contains(e, "] = "):
+					kv := strings.SplitN(strings.TrimPrefix(e, "store "), " = ", 2)
+					cellKey, cell = kv[0], kv[1]
+				case strings.HasPrefix(e, "mapupdate "):
+					maps = append(maps, e)
+				case strings.HasPrefix(e, "set.Action("):
+					asked = e
+				}
+			}
+			head0 := map[string]string{"Accept": `Sprintf("accept(true),%*c// %s"|`, "Error": `Sprintf("nil,%*c// %s"|`, "Reduce": `Sprintf("reduce(%d),%*c// %s, reduce: %s"|int(a)|`, "Shift": `Sprintf("shift(%d),%*c// %s"|int(a)|`}[kind]
+			okCell := strings.HasPrefix(cell, head0) && strings.HasSuffix(cellKey, "[i+1]") && asked == "set.Action(tokMap.TypeMap[i+1])"
+			c.Ob(rule, name, okCell, fmt.Sprintf("cell %s = %s for %s; required: column i+1 (the index of the symbol in the token map) receives a cell beginning %q for the action of that same symbol", cellKey, cell, asked, head0), p.FnPos(fn))
+			wantMaps := ""
+			if conf {
+				wantMaps = "mapupdate map#1[tokMap.TypeMap[i+1]] = symConflicts"
+			}
+			c.Ob(ruleConf, name, strings.Join(maps, ";") == wantMaps, fmt.Sprintf("conflict map updates %v; required %q (a symbol is recorded as conflicting iff Action returned a non-empty conflict list)", maps, wantMaps), p.FnPos(fn))
+		}
+	}
+}
 
 func runC02(c *Ctx) {
 	p := c.RepoProg()
 	if !gmHealth(c, p, "R02.0") {
 		return
 	}
+	checkItemAction(c, p, "R02.1")
+	checkBodyLength(c, p, "R02.2")
+	checkCellWriters(c, p, "R02.3", "R02.3c")
+	checkGotoWriters(c, p, "R02.3")
 	for _, d := range gmParserDirs {
 		checkLRDriver(c, p, "R02.4", gmRoot+"/"+d, "*Parser.Parse", false)
 	}
-	c.Explanation = "under construction"
+	checkAugment(c, p, "R02.5")
+	c.Assumptions = append(c.Assumptions, "FIRST sets, LR(1) closure and goto (GetFirstSets, FirstS, Closure, Goto, GetItemSets) compute the canonical collection — NOT decided: they are worklist algorithms over unbounded item sets",
+		"Parse terminates — NOT decided")
+	c.Trusted = append(c.Trusted, "go/ssa", "checker/sx.go", "the generated model's placeholder tables")
+	c.Explanation = "C02, partial: decided are the loop-free decisions between the item sets and the running parser. R02.1: Item.action implements Dragon-book Algorithm 4.56 plus gocc's INVALID column, in every world of (symbol, follow, production 0?, dot position, expected symbol). R02.2: the body length NewItem gives the automaton equals the NumSymbols the parser pops (0 for 'empty'). R02.3: each table writer renders Accept/Error/Reduce/Shift as accept(true)/nil/reduce(n)/shift(n) in the column of the symbol asked about; goto cells come from NextSetIndex over the nonterminal list whose index is NTType. R02.4: the generated Parse loop (all four debug/zip variants) is the LR driver: row = actionTab[top], column = look-ahead type; shift pushes and scans; reduce pops NumSymbols, calls the action, pushes goto[top-after-pop][NTType]; accept returns the remaining attribute; an empty cell goes to Error and returns a non-nil error unless recovered. R02.5: the grammar is augmented with S' : <first production> at index 0 and the initial item is [S' -> .S, end]. NOT decided: that the item sets are the canonical LR(1) collection for every grammar, and termination."
+}
+
+// ---- goto writers ------------------------------------------------------------------
+
+func checkGotoWriters(c *Ctx, p *Prog, rule string) {
+	fn := p.Func(parserGenPkg, "getGotoRowData")
+	if fn == nil {
+		c.Undecided(rule, "getGotoRowData", "function not found")
+		return
+	}
+	hs := loopHeaders(fn)
+	if len(hs) < 1 {
+		c.Undecided(rule, "getGotoRowData", "no loop")
+		return
+	}
+	reg := &Region{Fn: fn, Start: hs[0], Cuts: cutSet(hs...),
+		PhiInputs: map[string]Val{"rangeindex": VSym{Name: "i"}, "max": VSym{Name: "max"}},
+		Summaries: map[string]Summary{
+			"*.NumNTSymbols": func(r *Run, cc *ssa.CallCommon, args []Val) (Val, error) { return VSym{Name: "NNT"}, nil },
+			"*.NTList":       func(r *Run, cc *ssa.CallCommon, args []Val) (Val, error) { return VOpq{"NTList"}, nil },
+			"*.NextSetIndex": func(r *Run, cc *ssa.CallCommon, args []Val) (Val, error) {
+				return VSym{Name: "NextSetIndex(" + render(args[1]) + ")"}, nil
+			},
+			"*.nbytes": func(r *Run, cc *ssa.CallCommon, args []Val) (Val, error) { return VSym{Name: "nbytes"}, nil },
+		},
+	}
+	w := &MapWorld{Ints: map[string]int64{"i": 1, "len(NTList)": 6, "nbytes": 2, "max": 1}}
+	out := InterpretSafe(reg, w)
+	st := map[string]string{}
+	for k, v := range out.Stores {
+		if i := strings.LastIndex(k, "["); i >= 0 {
+			st[k[i:]] = v
+		}
+	}
+	ok := out.Term != "undecided" && st["[i+1].State"] == "NextSetIndex(NTList[i+1])" && st["[i+1].NT"] == "NTList[i+1]"
+	c.Ob(rule, "getGotoRowData cell", ok, fmt.Sprintf("stores %v %s; required: column i+1 = NextSetIndex of the (i+1)-th nonterminal of NTList (the list whose index NTType returns)", st, out.Undecided), p.FnPos(fn))
+	// NTType indexes the same list NTList returns
+	sy := p.Pkg("internal/parser/symbols")
+	okIdx := false
+	detail := ""
+	if sy != nil {
+		nt := p.Func("internal/parser/symbols", "*Symbols.NTType")
+		nl := p.Func("internal/parser/symbols", "*Symbols.NTList")
+		if nt != nil && nl != nil {
+			f1 := fieldsLoaded(nt)
+			f2 := fieldsLoaded(nl)
+			okIdx = f1["ntIdMap"] && f2["ntTypeMap"]
+			detail = fmt.Sprintf("NTType reads %v, NTList reads %v", keysOf(f1), keysOf(f2))
+		}
+	}
+	// and NewSymbols fills both in one step
+	ns := p.Func("internal/parser/symbols", "NewSymbols")
+	okFill := false
+	if ns != nil {
+		okFill = ntMapsFilledTogether(ns)
+	}
+	c.Ob(rule, "NTType is the index in NTList", okIdx && okFill, detail+fmt.Sprintf("; NewSymbols appends to ntTypeMap and records len-1 in ntIdMap in the same block: %v", okFill))
+}
+
+func fieldsLoaded(fn *ssa.Function) map[string]bool {
+	out := map[string]bool{}
+	for _, b := range fn.Blocks {
+		for _, in := range b.Instrs {
+			if fa, ok := in.(*ssa.FieldAddr); ok {
+				out[fieldVar(fa).Name()] = true
+			}
+		}
+	}
+	return out
+}
+
+func keysOf(m map[string]bool) []string {
+	var out []string
+	for k := range m {
+		out = append(out, k)
+	}
+	sortStrings(out)
+	return out
+}
+
+func sortStrings(s []string) {
+	for i := 1; i < len(s); i++ {
+		for j := i; j > 0 && s[j] < s[j-1]; j-- {
+			s[j], s[j-1] = s[j-1], s[j]
+		}
+	}
+}
+
+// ntMapsFilledTogether: some block appends to field ntTypeMap and does a map
+// update on ntIdMap whose value is len(ntTypeMap)-1.
+func ntMapsFilledTogether(fn *ssa.Function) bool {
+	for _, b := range fn.Blocks {
+		app, upd := false, false
+		for _, in := range b.Instrs {
+			switch x := in.(type) {
+			case *ssa.Call:
+				if bi, ok := x.Call.Value.(*ssa.Builtin); ok && bi.Name() == "append" {
+					if f := fieldOfLoad(x.Call.Args[0]); f != nil && f.Name() == "ntTypeMap" {
+						app = true
+					}
+				}
+			case *ssa.MapUpdate:
+				if f := fieldOfLoad(x.Map); f != nil && f.Name() == "ntIdMap" {
+					if bo, ok := x.Value.(*ssa.BinOp); ok && bo.Op.String() == "-" {
+						if call, ok := bo.X.(*ssa.Call); ok {
+							if bi, ok := call.Call.Value.(*ssa.Builtin); ok && bi.Name() == "len" {
+								if f2 := fieldOfLoad(call.Call.Args[0]); f2 != nil && f2.Name() == "ntTypeMap" {
+									upd = true
+								}
+							}
+						}
+					}
+				}
+			}
+		}
+		if app && upd {
+			return true
+		}
+	}
+	return false
+}
+
+// ---- R02.5: augmentation ---------------------------------------------------------------
+
+func checkAugment(c *Ctx, p *Prog, rule string) {
+	fn := p.Func("internal/ast", "*SyntaxPart.augment")
+	if fn == nil {
+		c.Undecided(rule, "SyntaxPart.augment", "function not found")
+		return
+	}
+	var appends []string
+	reg := &Region{Fn: fn, Summaries: map[string]Summary{
+		"builtin:append": func(r *Run, cc *ssa.CallCommon, args []Val) (Val, error) {
+			appends = append(appends, render(args[0])+" ++ "+render(args[1]))
+			return VOpq{"APPENDED"}, nil
+		},
+	}}
+	out := InterpretSafe(reg, &MapWorld{})
+	stores := out.Stores
+	// the new production: Id "S'", body = [SyntaxProdId(first production's Id)]
+	idOK, bodyOK, listOK := false, false, false
+	for k, v := range stores {
+		if strings.HasSuffix(k, ".Id") && v == `"S'"` {
+			idOK = true
+		}
+		if strings.HasSuffix(k, "[0]") && strings.Contains(v, "SyntaxProdId") && strings.Contains(v, "this.ProdList[0]") {
+			bodyOK = true
+		}
+		if strings.HasSuffix(k, ".ProdList") && v == "APPENDED" {
+			listOK = true
+		}
+	}
+	appOK := len(appends) == 1 && strings.HasSuffix(appends[0], "++ this.ProdList")
+	c.Ob(rule, "SyntaxPart.augment", out.Term == "return" && idOK && bodyOK && listOK && appOK,
+		fmt.Sprintf("term=%s %s stores=%v appends=%v; required: a production S' whose body is the id of the first production, placed in front of the unchanged production list", out.Term, out.Undecided, stores, appends), p.FnPos(fn))
+	// InitialItemSet: item of production 0 at position 0 with follow = end marker
+	is := p.Func(lr1ItemsPkg, "InitialItemSet")
+	if is == nil {
+		c.Undecided(rule, "InitialItemSet", "function not found")
+		return
+	}
+	var items []string
+	reg = &Region{Fn: is, Summaries: map[string]Summary{
+		"*.NewItemSet": func(r *Run, cc *ssa.CallCommon, args []Val) (Val, error) {
+			o := r.NewObj("set", false)
+			return VPtr{o, ""}, nil
+		},
+		"*.NewItem": func(r *Run, cc *ssa.CallCommon, args []Val) (Val, error) {
+			items = append(items, fmt.Sprintf("NewItem(%s,%s,%s,%s)", render(args[0]), render(args[1]), render(args[2]), render(args[3])))
+			return VOpq{"item0"}, nil
+		},
+		"*.AddItem": func(r *Run, cc *ssa.CallCommon, args []Val) (Val, error) {
+			items = append(items, "AddItem("+strings.Join(r.VarargElems(args[1]), ",")+")")
+			return VTuple{}, nil
+		},
+	}}
+	out = InterpretSafe(reg, &MapWorld{})
+	got := strings.Join(items, "; ")
+	want := `NewItem(0,&**g.SyntaxPart.ProdList[0],0,"␚"); AddItem(item0)`
+	c.Ob(rule, "InitialItemSet", out.Term == "return" && got == want, fmt.Sprintf("got [%s] %s; required [%s]", got, out.Undecided, want), p.FnPos(is))
+	_ = types.Typ
 }
